@@ -299,6 +299,13 @@ const TEMPLATES: &[(&str, Option<&str>, &str)] = &[
     ("deferred tuple comparison applied to a str element", None, "lt :: fn p ->\n    (p, 1) < (6, 1)\nend\n\nstart :: fn do\n    s := \"x\"\n    print(lt(s))\nend\n"),
     ("deferred tuple subtraction applied to a str element", None, "sub :: fn p ->\n    (p, 1) - (6, 1)\nend\n\nstart :: fn do\n    s := \"x\"\n    print(sub(s))\nend\n"),
     ("tuple addition with string elements (sound: concatenation)", None, "start :: fn do\n    t := (1, \"a\") + (2, \"b\")\n    print(t)\n    u := t\n    u += (1, \"c\")\n    print(u)\nend\n"),
+    // a local defined from the previous / outer variable of the same name: the initialiser is evaluated before the
+    // new variable exists (sound programs: judged like any other accepted program, they must not read a nil local)
+    ("inner local defined from the outer one through a call taking a function literal", None, "apply :: fn f: fn int -> int, v: int -> int do\n    ret f(v)\nend\n\nstart :: fn do\n    n := 3\n    do\n        n := apply(fn x: int -> int do ret x * 2 end, n)\n        print(n + 1)\n    end\n    print(n + 1)\nend\n"),
+    ("local redefined from itself through an arrow call taking a function literal", None, "apply_to :: fn v: int, f: fn int -> int -> int do\n    ret f(v)\nend\n\nstart :: fn do\n    total := 10\n    total := total -> apply_to(fn x: int -> int do ret x + 1 end)\n    print(total + 1)\nend\n"),
+    ("list redefined from itself through map and filter", None, "start :: fn do\n    xs := [1, 2, 3]\n    xs := xs -> map(pu x -> x * 2 end)\n    xs := filter(xs, pu x -> x > 2 end)\n    print(fold(xs, 0, pu x, acc -> acc + x end) + 1)\nend\n"),
+    ("local redefined from itself by plain arithmetic, in a loop body", None, "start :: fn do\n    n := 1\n    i := 0\n    loop i < 2 do\n        i += 1\n        n := n + i\n        print(n * 2)\n    end\n    print(n * 2)\nend\n"),
+    ("function literal argument reading the outer variable of the name being defined", None, "apply :: fn f: fn int -> int, v: int -> int do\n    ret f(v)\nend\n\nstart :: fn do\n    k := 5\n    do\n        k := apply(fn x: int -> int do ret x + k end, 1)\n        print(k + 1)\n    end\nend\n"),
     // the value of a compound assignment is its own target (nothing to unify)
     ("bool *= itself", None, "start :: fn do\n    m := false\n    m *= m\n    print(1)\nend\n"),
     ("annotated bool += itself in a nested block", None, "start :: fn do\n    i := 0\n    if i < 100 do\n        m: bool = false\n        m += m\n    end\n    print(i)\nend\n"),
